@@ -142,3 +142,54 @@ import native.C13 as _C13      # noqa: E402
 TARGETS = {"codebasin.config:load_database#sequences": _C13.Sequences(),    # extraction per entry, in databases of several entries
            "codebasin.config:ArgumentParser.parse_args": Extract(clean=True),
            "codebasin.config:ArgumentParser.parse_args#recorded-findings": Extract(clean=False)}
+
+
+# ---- recorded findings reported by defect hunting (fixed inputs; oracles quoted in the descriptions) ----------
+from native import recorded as _R      # noqa: E402
+
+
+def _default(compiler, argv):
+    return [c for c in config.ArgumentParser(compiler).parse_args(list(argv)) if c.pass_name == "default"][0]
+
+
+def _x_equals():
+    c = _default("gcc", ["-I=inc"])
+    return None if c.include_paths == ["=inc"] else ("include_paths == ['=inc'] (gcc -I=inc and -I =inc both name the directory '=inc')", c.include_paths)
+
+
+def _x_flag_equals():
+    c = _default("clang", ["-DA", "-fopenmp=libomp", "-DB"])
+    return None if c.defines == ["A", "B"] else ("defines == ['A', 'B']", c.defines)
+
+
+def _x_xassembler():
+    c = _default("gcc", ["-Xassembler", "-Iasminc", "-Xlinker", "-DA", "hi.c"])
+    return None if (c.include_paths, c.defines) == ([], []) else ("no include path, no define (the words belong to -Xassembler / -Xlinker)", (c.include_paths, c.defines))
+
+
+def _x_xclang():
+    c = _default("clang", ["-Xclang", "-include", "-Xclang", "inc/foo.h", "m.c"])
+    return None if c is not None else ("no exception", "none")
+
+
+def _x_posix_quoting():
+    got = CompileCommand("x.c", command='gcc "-DX=\\$5" -DA \\\n-DB -c x.c').arguments
+    want = ["gcc", "-DX=$5", "-DA", "-DB", "-c", "x.c"]
+    return None if got == want else (f"{want} (the argv /bin/sh builds: \\$ inside double quotes, backslash-newline removed)", got)
+
+
+def _x_abbreviation():
+    with _R.captured() as cap:
+        _default("gcc", ["-coverage", "-DA"])
+    named = [m for m in cap.messages() if "coverage" in m]
+    return None if named else ("one 'Unrecognized arguments' warning naming -coverage (a real gcc option CBI does not model)", cap.messages())
+
+
+TARGETS["codebasin.config:ArgumentParser.parse_args#recorded-findings-2"] = _R.Exhibits([
+    ("parse_args:extraction:equals-sign-after-a-single-dash-option", "gcc -I=inc", _x_equals),
+    ("parse_args:raises:flag-with-equals-value", "clang -DA -fopenmp=libomp -DB", _x_flag_equals),
+    ("parse_args:extraction:argument-word-of-an-unmodelled-option", "gcc -Xassembler -Iasminc -Xlinker -DA hi.c", _x_xassembler),
+    ("parse_args:raises:-Xclang", "clang -Xclang -include -Xclang inc/foo.h m.c", _x_xclang),
+    ("command-string-form:posix-quoting", 'command: gcc "-DX=\\$5" -DA \\<newline>-DB -c x.c', _x_posix_quoting),
+    ("parse_args:unknown-option-explained-by-abbreviation", "gcc -coverage -DA", _x_abbreviation),
+])
